@@ -38,6 +38,13 @@ CLAIMED["C13"] = dict(
    ref="DESIGN.md §4 C13")
 
 
+CLAIMED["C08"] = dict(
+   text="A comparison of integers is a total order by construction; the check decides that the integers compared are the right ones, for every pair at once: the representations compared as raw words are exactly those whose bit-field layout is ordered by chronological significance (ymcw goes to its own comparison); every `return c` of the three-way comparisons is guarded (CFG) by exactly the relation sign(c) between left and right operand, with fields taken in y, m, c order; no wrap-prone unsigned difference is reduced modulo a non-power-of-two; dt_dtcmp never reads the date/time sandwich of a value tagged as packed (abstract interpretation over the record layout); the range matrix decodes to the documented 16-cell table and both range predicates agree; dtest's option table and operand order, and dsort's key formats / separator / child command lines are as required.",
+   note="Assumes zeroed padding bits in compared words; sort(1)/cut(1) children are not analysed (their command lines are). Tables are decoded by constant folding of the source expression over domains of 3 resp. 16 values.",
+   technique="static analysis: record-layout facts, CFG guard/return agreement, tag-specialised abstract interpretation, table decoding by constant folding",
+   ref="DESIGN.md §4 C08")
+
+
 def main():
     props = [json.loads(l)["id"] for l in open(os.path.join(HERE, "properties.jsonl"))]
     checks = []
